@@ -328,6 +328,10 @@ func TestC07(t *testing.T) {
 				r.Inconclusive("child watchdog (" + tag + "), goroutine dump in " + cr.Output)
 				return
 			}
+			if cr.BedFailure {
+				r.Inconclusive("heimdall could not bind a listener in 4 attempts (" + tag + "), output in " + cr.Output)
+				return
+			}
 			for _, rc := range cr.Races {
 				raceKeys[rc.Key] += rc.Count
 				r.Violation("data-race", "race detector: "+rc.Key, map[string]any{"batch": tag, "report": rc.Text, "count": rc.Count})
